@@ -40,14 +40,19 @@ def main() -> None:
                 shutil.copytree(bak, hyp)
         tail = r.stdout.strip().splitlines()[-1:]
         passed = set()
+        why = {}
         for tc in ET.parse(xml).getroot().iter('testcase'):
-            if not any(ch.tag in ('failure', 'error', 'skipped') for ch in tc):
-                passed.add(f"{tc.get('classname')}::{tc.get('name')}")
+            name = f"{tc.get('classname')}::{tc.get('name')}"
+            bad = [ch for ch in tc if ch.tag in ('failure', 'error', 'skipped')]
+            if not bad:
+                passed.add(name)
+            else:
+                why[name] = (bad[0].get('message') or '')[:300].replace('\n', ' ')
     missing = sorted(want - passed)
     print(tail[0] if tail else '')
     print(f'stable_pass={len(want)} passed_now={len(passed)} missing={len(missing)}')
     for m in missing[:40]:
-        print('  NOT PASSING:', m)
+        print('  NOT PASSING:', m, '--', why.get(m, 'not run'))
     sys.exit(1 if missing else 0)
 
 
